@@ -101,6 +101,33 @@ func LoadWorld(repo string, mods ...string) (*World, error) {
 		w.SSAPkg[p.Pkg.Path()] = p
 	}
 	w.allFuncs = ssautil.AllFunctions(prog)
+	// generic origins are not in any method set: add declared functions and
+	// methods of lunar/* packages explicitly
+	var addFn func(f *ssa.Function)
+	addFn = func(f *ssa.Function) {
+		if f == nil || w.allFuncs[f] {
+			return
+		}
+		w.allFuncs[f] = true
+		for _, a := range f.AnonFuncs {
+			addFn(a)
+		}
+	}
+	for _, p := range w.Pkgs {
+		sc := p.Types.Scope()
+		for _, n := range sc.Names() {
+			switch o := sc.Lookup(n).(type) {
+			case *types.Func:
+				addFn(prog.FuncValue(o))
+			case *types.TypeName:
+				if nt, ok := o.Type().(*types.Named); ok {
+					for i := 0; i < nt.NumMethods(); i++ {
+						addFn(prog.FuncValue(nt.Method(i)))
+					}
+				}
+			}
+		}
+	}
 	for f := range w.allFuncs {
 		if strings.HasPrefix(fnPkgPath(f), "lunar/") && f.Blocks != nil {
 			w.lunarFns = append(w.lunarFns, f)
